@@ -218,6 +218,8 @@ func init() {
 	})
 }
 
+var rxWordPunct = regexp.MustCompile(`([\pL\pN]+)['’,.?!]`)
+
 func runC15(c *Ctx, idx int) {
 	r := c.RNG(idx, 1)
 	td := genTitle(r)
@@ -285,7 +287,17 @@ func runC15(c *Ctx, idx int) {
 	if T != "" {
 		tag := []string{"h1", "h2", "p", "div", "h3"}[idx%5]
 		inner := entityBack.Replace(T)
-		switch idx / 5 % 8 {
+		switch idx / 5 % 10 {
+		case 8: // a link around a word that is directly followed by punctuation or an apostrophe
+			if m := rxWordPunct.FindStringSubmatchIndex(T); m != nil && !strings.ContainsAny(T[:m[3]], "&<>") {
+				inner = entityBack.Replace(T[:m[2]]) + `<a href="/topic">` + entityBack.Replace(T[m[2]:m[3]]) + `</a>` + entityBack.Replace(T[m[3]:])
+			}
+		case 9: // a link around one word in the middle
+			if i := strings.Index(T, " "); i > 0 {
+				if j := strings.Index(T[i+1:], " "); j > 0 {
+					inner = entityBack.Replace(T[:i+1]) + `<a href="/topic">` + entityBack.Replace(T[i+1:i+1+j]) + `</a>` + entityBack.Replace(T[i+1+j:])
+				}
+			}
 		case 4: // the text wraps over two source lines
 			if i := strings.Index(T, " "); i > 0 {
 				inner = entityBack.Replace(T[:i]) + "\n      " + entityBack.Replace(T[i+1:])
